@@ -139,44 +139,157 @@ func ruleTokenTable(r *Run) {
 		of.Fail(r.pos(fn.Pos()), "IsFunction disagrees with the grammar for %v", wrong)
 	}
 
-	// scanSpace skips everything the scanner treats as whitespace (layout independence of function-name lookahead)
-	ss := p.Func(lexerPkg, "scanSpace")
+	// the look-ahead after a function name skips everything the scanner treats as whitespace (layout
+	// independence of function-name lookahead). The skipping loop is found by its role: the loop that
+	// runs under `tt.IsFunction()` in the lexer's nextToken, in place or in a helper called from there.
 	osp := r.Ob("FE-CLASS", "lexer.scanSpace", "the look-ahead after a function name skips space, tab, CR and LF (everything text/scanner skips between tokens)")
-	if ss == nil {
-		osp.Fail("-", "function not found")
-	} else {
-		usesIsSpace := false
-		onlyIsSpace := true
-		for _, b := range ss.Blocks {
-			if ifi, ok := b.Instrs[len(b.Instrs)-1].(*ssa.If); ok {
-				c := ifi.Cond
-				if u, ok := c.(*ssa.UnOp); ok && u.Op == token.NOT {
-					c = u.X
-				}
-				if call, ok := c.(*ssa.Call); ok && callIs(call, "unicode", "IsSpace") {
-					usesIsSpace = true
-				} else {
-					onlyIsSpace = false
-				}
-			}
-		}
-		if usesIsSpace && onlyIsSpace {
-			osp.OK("loop condition is unicode.IsSpace(peek)").At(r.pos(ss.Pos()))
-		} else {
-			// evaluate the hand-written predicate on the four whitespace runes
-			bad := []string{}
-			for _, ch := range []rune{' ', '\t', '\r', '\n'} {
-				if !scanSpaceSkips(ss, ch) {
-					bad = append(bad, fmt.Sprintf("%q", ch))
-				}
-			}
-			if len(bad) == 0 {
-				osp.OK("hand-written predicate accepts space, tab, CR, LF").At(r.pos(ss.Pos()))
-			} else {
-				osp.Fail(r.pos(ss.Pos()), "the look-ahead does not skip %v: a function name followed by that character is demoted to an identifier", bad)
-			}
+	nt := p.Method(lexerPkg, "lexer", "nextToken")
+	if nt == nil {
+		osp.Fail("-", "lexer.nextToken not found")
+		return
+	}
+	var isFn *ssa.Call
+	for _, c := range callsIn(nt) {
+		if call, ok := c.(*ssa.Call); ok && callIs(call, modPath+"/"+lexerPkg, "(TokenType).IsFunction") {
+			isFn = call
 		}
 	}
+	if isFn == nil {
+		osp.Fail(r.pos(nt.Pos()), "nextToken does not test IsFunction()")
+		return
+	}
+	type skipLoop struct {
+		fn     *ssa.Function
+		header *ssa.BasicBlock
+		blocks map[*ssa.BasicBlock]bool
+	}
+	loopsOf := func(fn *ssa.Function) []skipLoop {
+		var out []skipLoop
+		seen := map[*ssa.BasicBlock]bool{}
+		for _, b := range fn.Blocks {
+			for _, sc := range b.Succs {
+				if sc.Dominates(b) && !seen[sc] {
+					seen[sc] = true
+					bl := naturalLoop(sc)
+					hasNext := false
+					for lb := range bl {
+						for _, in := range lb.Instrs {
+							if c, ok := in.(ssa.CallInstruction); ok && callIs(c, "text/scanner", "(*Scanner).Next") {
+								hasNext = true
+							}
+						}
+					}
+					if hasNext {
+						out = append(out, skipLoop{fn, sc, bl})
+					}
+				}
+			}
+		}
+		return out
+	}
+	var cands []skipLoop
+	for _, l := range loopsOf(nt) {
+		under := false
+		if b, known := knownBoolAt(l.header, isFn); known && b {
+			under = true
+		}
+		for _, pb := range l.header.Preds {
+			if l.blocks[pb] {
+				continue
+			}
+			if b, known := knownBoolAt(pb, isFn); known && b {
+				under = true
+			}
+			if f, ok := edgeFact(pb, l.header); ok {
+				if f = normFact(f); f.Cond == ssa.Value(isFn) && f.Truth {
+					under = true
+				}
+			}
+		}
+		if under {
+			cands = append(cands, l)
+		}
+	}
+	for _, c := range callsIn(nt) {
+		if b, known := knownBoolAt(c.Block(), isFn); !known || !b {
+			continue
+		}
+		if h := staticCallee(c); h != nil && h.Blocks != nil && h.Pkg == nt.Pkg {
+			cands = append(cands, loopsOf(h)...)
+		}
+	}
+	if len(cands) != 1 {
+		osp.Fail(r.pos(nt.Pos()), "expected one whitespace-skipping loop under IsFunction(), found %d", len(cands))
+		return
+	}
+	sl := cands[0]
+	var bad []string
+	for _, ch := range []rune{' ', '\t', '\r', '\n'} {
+		if !loopSkips(sl.fn, sl.header, sl.blocks, ch) {
+			bad = append(bad, fmt.Sprintf("%q", ch))
+		}
+	}
+	if len(bad) == 0 {
+		osp.OK("the loop consumes space, tab, CR, LF").At(r.pos(termPos(sl.header)))
+	} else {
+		osp.Fail(r.pos(termPos(sl.header)), "the look-ahead does not skip %v: a function name followed by that character is demoted to an identifier", bad)
+	}
+}
+
+// loopSkips: with every Peek of the loop yielding ch, does the loop consume it (reach Scanner.Next
+// inside the loop) instead of leaving?
+func loopSkips(fn *ssa.Function, header *ssa.BasicBlock, blocks map[*ssa.BasicBlock]bool, ch rune) bool {
+	assume := map[ssa.Value]constant.Value{}
+	for _, c := range callsIn(fn) {
+		if call, ok := c.(*ssa.Call); ok && callIs(call, "text/scanner", "(*Scanner).Peek") && (blocks[call.Block()] || call.Block().Dominates(header)) {
+			assume[call] = constant.MakeInt64(int64(ch))
+		}
+	}
+	if len(assume) == 0 {
+		return false
+	}
+	hook := func(w *feWalker, st *feState, v ssa.Value) (constant.Value, bool) {
+		if c, ok := v.(*ssa.Call); ok && callIs(c, "unicode", "IsSpace") {
+			return constant.MakeBool(unicode.IsSpace(ch)), true
+		}
+		return nil, false
+	}
+	var pre *ssa.BasicBlock
+	for _, pb := range header.Preds {
+		if !blocks[pb] {
+			pre = pb
+		}
+	}
+	w := &feWalker{Fn: fn, Assume: assume, Hook: hook, MaxPath: 20000}
+	var ends []*feEnd
+	if pre != nil {
+		ends = w.RunFrom(header, pre)
+	} else {
+		ends = w.Run()
+	}
+	if w.Aborted || len(ends) == 0 {
+		return false
+	}
+	for _, e := range ends {
+		// position (in event order) at which the path first leaves the loop
+		leave := 1 << 30
+		for i, b := range e.State.trail {
+			if !blocks[b] && i < len(e.State.trailSeq) {
+				leave = e.State.trailSeq[i]
+				break
+			}
+		}
+		consumed := false
+		for _, c := range e.State.calls {
+			if callIs(c.Call, "text/scanner", "(*Scanner).Next") && blocks[c.Call.Block()] && c.Seq <= leave {
+				consumed = true
+			}
+		}
+		if !consumed {
+			return false
+		}
+	}
+	return true
 }
 
 // scanSpaceSkips: under peek()==ch does the loop consume the character (call Next)?
